@@ -45,6 +45,9 @@ CHECKS = {
  'C20': dict(level='model_checking', technique='symbolic execution (z3) of PlayerThread._connect co-simulated with the real Client._connect from an arbitrary seat table; SMT partial-order encoding of recorded admission sessions (deadlock + seat-table race queries) with forced-schedule replay',
              text='One admission step for every seat table, seat, version 0..999 and team text of the listed lengths: refused iff wrong version / seat taken / partner team differs; refusal = one ERROR line, closed connection, event set, table unchanged; acceptance = only that seat changes, event set after the table write, client accepts the dialogue and records the opponents. Sessions with invalid requests interleaved (A1, A2): all interleavings of the recorded traces deadlock-free, no seat-table access can change sides, outcomes as specified.',
              note='Admitted clients are assumed conforming. Sessions bounded to A1/A2 (one board). Trusted: interpreter, regex model, PO primitive semantics.', ref='§4 C20'),
+ 'C19': dict(level='model_checking', technique='symbolic execution (z3) of each message builder followed by the other end\'s real parser over symbolic values, symbolic characters and case bits (sre-semantics regex model); framing with a nondeterministic socket stub and symbolic end-of-stream position, unwinding assertion for termination',
+             text='Calls (38 x 4 seats x case bits x alert suffixes), cards (52 x 4 x 2 notations x case bits), board headers (1..9999), hands (0..4 cards all shapes; 13-card shapes with symbolic ranks; own and dummy messages), connection request and admission replies (team text symbolic) are built by one end\'s real code and parsed by the other end\'s real code to the original value. Framing: <= 2 messages of <= 4 symbolic bytes are received intact and in order; at every end-of-stream position the receiver raises within remaining+2 recv calls (a looping receiver trips the unwinding assertion and is replayed on a counting socket).',
+             note='Trusted: interpreter, regex model (ASCII case folding for symbolic characters), z3. Quick tier samples 16 of the 560 13-card shapes.', ref='§4 C19'),
 }
 
 
